@@ -27,6 +27,47 @@ def bounded_ubi_to_u_b(module):
     return f
 
 
+def bounded_ub_to_u_b_conditioned(module):
+    """ub_to_u_b on U.B with condition numbers up to 1e6 (the range the property names): the factorisation must stay
+    orthonormal and reproduce U and B to 1e-8 relative -- a backward-stable QR does, a Gram/Cholesky route does not"""
+    import importlib
+    import numpy as np
+    from pyvc.engine import random_rotation
+    mod = importlib.import_module('xfab.' + module)
+
+    def f(rng):
+        U = np.array(random_rotation(rng))
+        cond = 10 ** rng.uniform(0, 5.9)
+        d = [1.0, cond ** rng.uniform(0, 1), cond]
+        rng.shuffle(d)
+        B = np.diag(d)
+        for (i, j) in ((0, 1), (0, 2), (1, 2)):
+            B[i, j] = rng.uniform(-1, 1) * min(d[i], d[j])
+        B /= max(d) ** 0.5
+        if np.linalg.cond(B) > 1e6:
+            return None
+        UB = U.dot(B)
+        U2, B2 = mod.ub_to_u_b(UB)
+        U2, B2 = np.asarray(U2), np.asarray(B2)
+        sc = np.abs(B).max()
+        bad = {}
+        if not (np.all(np.isfinite(U2)) and np.all(np.isfinite(B2))):
+            bad['finite'] = False
+        else:
+            bad_orth = np.abs(U2.T.dot(U2) - np.eye(3)).max()
+            if bad_orth > 1e-9:
+                bad['orthonormality_error'] = float(bad_orth)
+            if np.abs(U2.dot(B2) - UB).max() > 1e-9 * sc:
+                bad['product_error'] = float(np.abs(U2.dot(B2) - UB).max() / sc)
+            if np.abs(U2 - U).max() > 1e-8 or np.abs(B2 - B).max() > 1e-8 * sc:
+                bad['U_error'] = float(np.abs(U2 - U).max())
+                bad['B_error'] = float(np.abs(B2 - B).max() / sc)
+        if bad:
+            bad.update({'UB': UB.tolist(), 'cond': float(np.linalg.cond(B))})
+            return bad
+    return f
+
+
 def units(tier):
     us = []
     for m in ('tools', 'laue'):
@@ -36,6 +77,8 @@ def units(tier):
             us.append(RuntimeContractUnit(m, f, 300, 10000))
         us.append(BoundedUnit(m + '.ubi_to_u_b_returns_U_and_B', bounded_ubi_to_u_b(m), 300, 10000,
                               'ubi_to_u_b(u_to_ubi(U, cell)) == (U, form_b_mat(cell)) within 1e-7 for random rotations and valid cells'))
+        us.append(BoundedUnit(m + '.ub_to_u_b_condition_up_to_1e6', bounded_ub_to_u_b_conditioned(m), 400, 10000,
+                              'ub_to_u_b(U.B) for det > 0 and cond(B) up to 1e6: orthonormal to 1e-9, U and B recovered to 1e-8'))
     return us
 
 
